@@ -218,10 +218,15 @@ UNITS['matchers'] = {
         "PM_VALUE": "13param_matchesIiSt17reference_wrapperIiEE",
         "PM_MEMBER": "13param_matchesINS_17predicate_matcherINS_4impl17member_is_matcherI.*6vp_absILi1EEE",
         "PM_RE": "13param_matchesINS_17predicate_matcherINS_7lambdas11regex_checkE.*St17reference_wrapperIPKcEE",
-        "PM_RE_STR": "13param_matchesINS_17predicate_matcherINS_7lambdas11regex_checkE.*St17reference_wrapperISB_EE"
+        "PM_RE_STR": "13param_matchesINS_17predicate_matcherINS_7lambdas11regex_checkE.*St17reference_wrapperISB_EE",
+        "PM_EQ_NULL": "13param_matchesINS_17predicate_matcherINS_7lambdas5equalENS2_13equal_printerENS_18duck_typed_matcherIS3_JDnEEEJDnEEESt17reference_wrapperIPiEE",
+        "PM_NE_NULL": "13param_matchesINS_17predicate_matcherINS_7lambdas9not_equalE.*18duck_typed_matcherIS3_JDnEEEJDnEEESt17reference_wrapperIPiEE",
+        "PM_NULLPTR": "13param_matchesIDnSt17reference_wrapperIPiEE",
+        "PM_DEREF_EQ": "13param_matchesINS_9ptr_derefINS_17predicate_matcherINS_7lambdas5equalE.*JiEEEJiEEEEESt17reference_wrapperIPiEE",
+        "PM_DEREF_NOT_GT": "13param_matchesINS_9ptr_derefINS_11not_matcherINS_17predicate_matcherINS_7lambdas7greaterE.*St17reference_wrapperIPiEE",
 },
 }
-for e in ('m_eq', 'm_ne', 'm_lt', 'm_le', 'm_gt', 'm_ge', 'm_eq_typed', 'm_lt_typed', 'm_value', 'm_wildcard', 'm_not', 'm_deref', 'm_any_of', 'm_all_none_of', 'm_any_of_value', 'm_member_is', 'm_re', 'm_re_string'):
+for e in ('m_eq', 'm_ne', 'm_lt', 'm_le', 'm_gt', 'm_ge', 'm_eq_typed', 'm_lt_typed', 'm_value', 'm_wildcard', 'm_not', 'm_deref', 'm_any_of', 'm_all_none_of', 'm_any_of_value', 'm_member_is', 'm_re', 'm_re_string', 'm_null', 'm_nested'):
     ob(name='matchers.%s' % e[2:], kind='FC+', props=['C10'], unit='matchers', harness='h_matchers.c', entry=e, unwind=5,
        bound='none: loop-free, full 32-bit argument and operand domain; combinators over abstract operand matchers (arity <= 3 as instantiated)')
 LEVELS['C10'] = 'proof'
